@@ -641,6 +641,10 @@ def units():
     # the dependencies it records are the ones it was given
     from . import stmtinit
     us += stmtinit.units(PROP)
+    # fuse_two_dags' default predicate is `not is_state_variable(name)`: which names count as shared state is that function's
+    # contract (stated in C13's module, where the storage classes depend on it too)
+    from . import c13
+    us.append(FunctionUnit(c13.IsStateVariable()))
     return us
 
 
